@@ -790,6 +790,72 @@ def _alphabet_task(_):
     return part
 
 
+# ---- histories: a filter translated after another filter in the same process state ------------------------
+def hist_filters():
+    """(entry point, resource type, filter list): 15 small trees over five value leaves and two compound leaves x both entry points."""
+    l = [FAM[PLAIN].clause(i) for i in range(3)] + [FAM[c].clause(0) for c in CYCLE[:2]] + [FAM["marked"].clause(0), FAM["flow_logs"].clause(1)]
+    trees = [[l[0]], [l[0], l[1]], [{"or": [l[0], l[1]]}], [{"and": [l[0], l[1]]}], [{"not": [l[0]]}], [{"not": [{"or": [l[0], l[1]]}]}],
+             [{"or": [l[0], l[1]]}, l[2]], [{"or": [l[1], l[0]]}], [{"and": [{"or": [l[0], l[1]]}, l[2]]}], [l[3]], [{"not": [l[3]]}], [{"or": [l[3], l[4]]}],
+             [l[4], l[0]], [{"or": [l[5], l[0]]}], [{"not": [l[6]]}, l[1]]]
+    return [(e, "ec2", t) for t in trees for e in ENTRIES]
+
+
+def hist_count():
+    n = len(hist_filters())
+    return n * n + 2 * n
+
+
+_H_SNAP = []
+
+
+def hist_run(history, last):
+    from ..explore import procstate
+    import copy
+    if not _H_SNAP:
+        import celpy.c7nlib  # noqa: F401 -- loaded before the snapshot so that the snapshot covers them
+        import xlate.c7n_to_cel  # noqa: F401
+        _H_SNAP.append(procstate.snapshot())
+    procstate.restore(_H_SNAP[0])
+    for e, rtype, filt in history:
+        translate(e, rtype, copy.deepcopy(filt))
+    return translate(last[0], last[1], copy.deepcopy(last[2]))
+
+
+def shard_H(task):
+    lo, hi = task
+    part = runner.Part()
+    alpha = hist_filters()
+    n = len(alpha)
+    alone = [hist_run([], b) for b in alpha]
+    idx = done = 0
+
+    def judge_h(history, j):
+        after = hist_run(history, alpha[j])
+        part.case()
+        part.outcome("history:" + ("same" if after == alone[j] else "differs"))
+        if after != alone[j]:
+            a = history[-1]
+            part.violation("history-dependent-translation", f"history:{alpha[j][0]}-after-{a[0]}:{'same-filter' if a[2] == alpha[j][2] else 'other-filter'}",
+                           {"space": "histories", "history": [list(h) for h in history], "filter": list(alpha[j]), "alone": list(alone[j]), "after": list(after)},
+                           f"{alpha[j][2]} via {alpha[j][0]} translates to {alone[j][1]!r} in a pristine state but to {after[1]!r} after {len(history)} earlier translation(s) ending with {a[2]} via {a[0]}")
+    for i in range(n):
+        for j in range(n):
+            if lo <= idx < hi:
+                judge_h([alpha[i]], j)
+                done += 1
+            idx += 1
+    for order in (list(range(n)), list(range(n))[::-1]):
+        for pos, j in enumerate(order):
+            if lo <= idx < hi:
+                judge_h([alpha[k] for k in order[:pos]] or [alpha[j]], j)
+                done += 1
+            idx += 1
+    part.space("H:translation-histories", 0, done)
+    if lo == 0:
+        part.extra["history_filters_translatable"] += sum(1 for a in alone if a[0] == "ok")
+    return part
+
+
 def run(ctx):
     c7nbool.selftest()
     celrun.Prog("I", "true")    # build the (interpreted-kind) parser once in the parent; forked workers inherit it
@@ -803,6 +869,7 @@ def run(ctx):
         f"(operator-class representatives {REPS}; all {len(FAMILIES)} families on the shapes with <={b['B_all'][1]} leaves and <={b['B_all'][2]} connectives; "
         + ("both entry points" if ctx.thorough else "entry points alternating") + "); "
         "C: " + " plus ".join(f"every shape of depth<={bd[0]}, {lo}..{bd[1]} leaves, <={bd[2]} connectives x every tuple over {len(nm)} families" for bd, lo, nm in b["C"]) + "; "
+        f"H: every ordered pair of {len(hist_filters())} (entry point, small filter) items, and the list read forwards and backwards, translated in one process state and compared with the pristine translation; "
         "each case is evaluated under every product of its leaves' states (2-4 per leaf), evaluations counts those worlds; "
         "a case is non-trivial iff under at least one world every leaf alone evaluates to a boolean (the oracle c7nbool is then compared)")
     ctx.assumptions = [
@@ -826,7 +893,11 @@ def run(ctx):
     t0 = time.time()
     ctx.run_shards(shard_C, [(ctx.tier, lo, hi) for lo, hi in runner.shards(nC, 96)])
     ctx.coverage_extra["wall_C_s"] = round(time.time() - t0, 1)
+    ctx.run_shards(shard_H, runner.shards(hist_count(), 8))
     sp = ctx.part.spaces
+    sp["H:translation-histories"]["cardinality"] = hist_count()
+    if ctx.part.extra.get("history_filters_translatable", 0) < len(hist_filters()):
+        raise runner.HarnessError(f"only {ctx.part.extra.get('history_filters_translatable', 0)} of {len(hist_filters())} history filters translate")
     nA_cycle = c7nbool.count_shapes(b["A"][0], min(b["A"][1], cycle_max_leaves(ctx.tier)), b["A"][2])
     sp["A:value-leaves"]["cardinality"] = (nA + nA_cycle) * len(ENTRIES)
     sp["A:value-leaves"]["bound"] = f"depth<={b['A'][0]} leaves<={b['A'][1]} connectives<={b['A'][2]}"
@@ -849,6 +920,13 @@ def replay(w):
 def _replay(w):
     wit = w["witness"]
     c7nbool.selftest()
+    if wit.get("space") == "histories":
+        b = tuple(wit["filter"])
+        alone = hist_run([], b)
+        after = hist_run([tuple(h) for h in wit["history"]], b)
+        print(f"filter   : {b}\npristine : {alone}\nafter {len(wit['history'])} earlier translation(s): {after}")
+        print("REPRODUCED" if alone != after else "not reproduced")
+        return 1 if alone != after else 0
     status = 0
     for label, tj, fams in (("witness", wit["tree"], wit["families"]), ("minimal", wit.get("minimal_tree"), wit.get("minimal_families"))):
         if tj is None:
